@@ -11,7 +11,7 @@ import (
 
 func vRTLen() int {
 	if vThorough() {
-		return 6
+		return 5
 	}
 	return 4
 }
